@@ -1988,7 +1988,9 @@ def replay(ck: Check, path: str):
             if case == rp['neighbour_case']:
                 print('circuit', c16_neighbours.circuit_text(rad, ops))
                 for sig, what in c16_neighbours.check_circuit(
-                        case, rad, ops, random.Random(i)):
+                        case, rad, ops, random.Random(
+                            body.get('seed', 0) * 31 + rp.get('round', 0)
+                            + i)):
                     ck.violation(sig, what, rp)
     elif 'construction' in rp:
         from harness import c16_gates
